@@ -23,7 +23,7 @@ WORKERS = {"quick": 4, "thorough": 16}
 CONTEXTS = ["bare", "params", "photos", "photos+params", "wrapped", "extended-daughters", "extended-params", "space-before-semicolon"]
 REQUIRED = {**{f"context:{c}": 135 for c in CONTEXTS}, "published-name-in-all-contexts": 1, "prefix-pairs-all": 1, "published-after-user-registration": 135,
             "user-name": 200, "user-name:special-char:.": 3, "user-name:special-char:+": 3, "user-name:special-char:*": 3, "user-name:special-char:(": 3,
-            "user-name:ends-in-nonword": 5, "user-name:extends-published": 20, "user-name:prefix-of-published": 20, "registration:several-calls": 20,
+            "user-name:ends-in-nonword": 5, "user-name:extends-published": 20, "user-name:prefix-of-published": 20, "registration:several-calls": 20, "registered-names-second-parse": 20,
             "near-miss-rejected": 300, "near-miss:dot-replaced": 3, "near-miss:alias-misspelled": 5, "alias-name-extends-model": 20}
 EXHAUSTIVE_NOTE = "all 135 published names x 8 contexts and all ordered prefix pairs are enumerated across the workers in every run"
 ASSUMPTIONS = ["labels next to model names extend them by letters, digits or '_' only (PHSP-x is, by the language's own tokenisation, PHSP with parameter -x)",
@@ -98,6 +98,21 @@ def check_accept(ctx, stmts, user_calls, label, nontrivial=True):
     for mech, msg in snapshot.compare_globals(p, exp):
         if mech.startswith("globals:dict_aliases"):
             ctx.violate("model-" + mech, msg, wit)
+    if user_calls and not bad:
+        # registered names stay registered: parsing the same instance again must give the same tables
+        ctx.hit("registered-names-second-parse")
+        import warnings  # noqa: PLC0415
+
+        def again():
+            with warnings.catch_warnings():
+                warnings.simplefilter("ignore")
+                p.parse(include_ccdecays=False)
+                p.parse()
+            return snapshot.compare_tables(p, exp)
+
+        ok2, bad2 = ctx.guard("parse-supported-model:second-parse", wit, again)
+        for mech, msg in (bad2 or []):
+            ctx.violate("model-second-parse-" + mech, msg, wit)
     return not bad
 
 
